@@ -537,6 +537,56 @@ func init() {
 		return nil
 	}
 
+	// ---- sync/atomic on plain words: one thread of control, so a load or a store; the store is an
+	// ordinary write for the frame check (C03/C04: a shared counter written during a render) ----
+	atomicInt := func(v Value, what string) int64 {
+		n, ok := v.(int64)
+		if !ok {
+			unsupported("sync/atomic." + what + " on a symbolic word")
+		}
+		return n
+	}
+	for _, w := range []struct {
+		suffix string
+		wrap   func(int64) int64
+	}{
+		{"Int32", func(n int64) int64 { return int64(int32(n)) }},
+		{"Int64", func(n int64) int64 { return n }},
+		{"Uint32", func(n int64) int64 { return int64(uint32(n)) }},
+		{"Uint64", func(n int64) int64 { return n }},
+	} {
+		w := w
+		intrinsics["sync/atomic.Add"+w.suffix] = func(e *Exec, _ *frame, args []Value) Value {
+			p := args[0].(Ptr)
+			n := w.wrap(atomicInt(e.load(p), "Add") + atomicInt(args[1], "Add"))
+			e.storeSlot(p.o, p.p, n)
+			return n
+		}
+		intrinsics["sync/atomic.Load"+w.suffix] = func(e *Exec, _ *frame, args []Value) Value {
+			return e.load(args[0].(Ptr))
+		}
+		intrinsics["sync/atomic.Store"+w.suffix] = func(e *Exec, _ *frame, args []Value) Value {
+			p := args[0].(Ptr)
+			e.load(p)
+			e.storeSlot(p.o, p.p, args[1])
+			return nil
+		}
+		intrinsics["sync/atomic.Swap"+w.suffix] = func(e *Exec, _ *frame, args []Value) Value {
+			p := args[0].(Ptr)
+			old := e.load(p)
+			e.storeSlot(p.o, p.p, args[1])
+			return old
+		}
+		intrinsics["sync/atomic.CompareAndSwap"+w.suffix] = func(e *Exec, _ *frame, args []Value) Value {
+			p := args[0].(Ptr)
+			if atomicInt(e.load(p), "CompareAndSwap") != atomicInt(args[1], "CompareAndSwap") {
+				return false
+			}
+			e.storeSlot(p.o, p.p, args[2])
+			return true
+		}
+	}
+
 	// ---- sync.Pool: a per-path LIFO free list (one legal behaviour of the real pool: the item put last
 	// is handed out next; nothing survives from one path to the next) ----
 	poolNew := func(e *Exec, p Ptr) Value {
@@ -633,7 +683,7 @@ func init() {
 
 	// ---- runtime/debug ----
 	intrinsics["runtime/debug.Stack"] = func(e *Exec, _ *frame, args []Value) Value {
-		s := mkStr("<stack elided by gosym>")
+		s := mkStr("goroutine 1 [running]:\n<stack elided by gosym>(0xc000010000)\n")
 		o := e.newObj(s.Len(), "bytes")
 		copy(o.cells, s.bytes())
 		return Slice{arr: o, len: s.Len(), cap: s.Len()}
